@@ -9,6 +9,7 @@ REGISTRY = {
     'caseconv': lambda repo, sd, canary=False: smallslices.build_caseconv(repo, sd, canary=canary),
     'split':    lambda repo, sd, canary=False: smallslices.build_split(repo, sd, canary=canary),
     'rep':      lambda repo, sd, canary=False: smallslices.build_rep(repo, sd, canary=canary),
+    'order':    lambda repo, sd, canary=False: smallslices.build_order(repo, sd, canary=canary),
     'gates':    lambda repo, sd, canary=False: smallslices.build_gates(repo, sd, canary=canary),
     'tables':   lambda repo, sd, canary=False: tables.build(repo, sd, canary=canary),
     'dfa':      lambda repo, sd, canary=False: dfa.build(repo, sd, kf=False, canary=canary),
@@ -30,10 +31,10 @@ PROP_UNITS = {
     'C04': ['caseconv', 'regexp', 'render'],
     'C05': ['trie', 'render', 'rep'],
     'C06': ['render', 'format'],
-    'C07': ['expr', 'elim', 'regexp', 'builder', 'split', 'caseconv', 'rep', 'gates', 'render', 'format', 'dfa', 'trie', 'cli', 'escape', 'classify'],
+    'C07': ['expr', 'elim', 'regexp', 'builder', 'split', 'caseconv', 'rep', 'gates', 'render', 'format', 'order', 'dfa', 'trie', 'cli', 'escape', 'classify'],
     'C08': ['render', 'expr', 'regexp', 'format'],
     'C09': ['tables', 'classify'],
-    'C10': ['builder', 'regexp', 'gates'],
+    'C10': ['builder', 'regexp', 'gates', 'order'],
     'C11': ['escape', 'builder', 'format'],
     'C12': ['cli', 'gates'],
     'C13': ['rep', 'builder', 'render', 'trie'],
